@@ -5,6 +5,7 @@
 //   reset                          fresh context, clock 0, no records
 //   script <name> <hex> [## …]     compile (recompile = true)
 //   call <label|-> new <val>*      ExecuteThread(script, <fresh Event with these values>, label)
+//                                  label: letters then digits, handed to the engine as written
 //   call <label|-> r<k>            ExecuteThread(script, <record k as it is now>, label)
 //   step <ms>                      clock += ms; context.Execute()
 //   val = i<int> | s<letters> | n
@@ -162,9 +163,11 @@ int main()
                 } else { say("bad-op"); continue; }
                 if (!s) { say("bad-op"); continue; }
                 if (t[1] != "-") {
-                    std::vector<size_t> n;
-                    std::vector<std::string> one{ "", t[1].substr(1) };
-                    if (t[1][0] != 't' || !parseNats(one, 1, n) || n.size() != 1) { say("bad-op"); continue; }
+                    size_t a = 0;
+                    while (a < t[1].size() && isalpha((unsigned char)t[1][a])) ++a;
+                    size_t d = a;
+                    while (d < t[1].size() && isdigit((unsigned char)t[1][d])) ++d;
+                    if (a == 0 || d == a || d != t[1].size()) { say("bad-op"); continue; }
                 }
                 ScriptThread* th = nullptr;
                 if (t[1] == "-") th = g_ctx->GetDirector().ExecuteThread(s, *rec);
